@@ -335,3 +335,12 @@ impl BVLitValue {
         ensures r == self.0.width,
     { unimplemented!() }
 }
+
+/// R11: an `impl FnMut(&ExprRef)` visitor seen as a call log
+pub struct Visitor { pub log: Ghost<Seq<ExprRef>> }
+impl Visitor {
+    #[verifier::external_body]
+    pub fn visit(&mut self, e: &ExprRef)
+        ensures final(self).log@ == old(self).log@.push(*e),
+    { unimplemented!() }
+}
